@@ -36,8 +36,12 @@ def run(prog, R, tier="quick", only_rule=None):
     c01e(prog, R)
     c01f(prog, R)
     c01g(prog, R)
-    from rules.props import c07
+    from rules.props import c07, c11
     c07.c07a(prog, R, rid="C01.h")
+    # which tables a leveled merge pulls in (hull of L0, containment) decides whether an older value stays on top
+    c07.c07f(prog, R, rid="C01.i")
+    # a stored hash index must never answer `absent` for a key that is in the block
+    c11.c11c(prog, R, rid="C01.j")
 
 
 def c01a(prog, R):
@@ -145,7 +149,7 @@ def c01c(prog, R, rid="C01.c"):
             if sm.SAME_KEY in g:
                 ok = sm.BELOW_WATERMARK in g and sm.before_has_call(s, "drain_key")
         if cls == "weak-annihilation":
-            ok = sm.SAME_KEY in g and sm.BELOW_WATERMARK in g and sm.before_has_call(s, "drain_key")
+            ok = sm.SAME_KEY in g and sm.BELOW_WATERMARK in g and not sm.before_has_call(s, "drain_key")
         r.check(ok, key, "an entry can be discarded by the compaction stream without one of the three legal reasons (filter "
                          "Drop / tombstone eviction into the last level / weak-tombstone annihilation): older versions beneath it resurface", "")
     if len(ds) < 5:
